@@ -425,7 +425,7 @@ Lemma Edz r : s_dpzdrz s1 r = dpz_of %s r.
 Proof. rewrite <- HT. exact (proj1 (proj2 (proj2 (Hc r)))). Qed.
 Lemma Edp r : s_dppdrp s1 r = dpp_of %s r.
 Proof. rewrite <- HT. exact (proj2 (proj2 (proj2 (Hc r)))). Qed.
-Ltac ev :=
+Ltac prep :=
   unfold gd_moment_Delta00, gd_moment_Delta02, gd_moment_Delta20, gd_moment_Delta11, sumf;
   cbn [sumn rz_lo rz_hi rp_lo rp_hi Nat.sub Nat.add Nat.eqb];
   rewrite ?Epz, ?Epp, ?Edz, ?Edp;
@@ -433,8 +433,9 @@ Ltac ev :=
   cbn [fst snd g_momentumFalloffT g_positionFalloff];
   unfold w_Delta00, w_Delta02, w_Delta20, w_Delta11, intNodeWeight_pz, intNodeWeight_pp,
          rzNode, rpNode, f, atanh_R;
-  cbn [INR];
-  interval with (i_prec 80).
+  cbn [INR].
+Ltac ev := prep; interval with (i_prec 80).
+Ltac ev_hi := prep; interval with (i_prec 200).
 """
 
 
@@ -467,21 +468,61 @@ def eval_case(ctx, idx, N, ops, coeffs, fieldval):
     dF = np.broadcast_to(f, (1, M - 1, N - 1, N - 1)).copy()
     D = solver.getDeltas(dF).Deltas
     msq = Fraction(float(particles[0].msqVacuum(bg.fieldProfiles)[1]))
-    goals = []
-    rows = []
+    # natural scale of each moment: the sum of the ABSOLUTE values of its terms (the result
+    # itself may vanish by cancellation, e.g. Delta11 of a pz-even deviation)
+    _, rz_, rp_, pz4, pp4, energy = physical(grid, particles, bg)
+    meas = own_measure(grid, N, float(Tcur), rz_, rp_, pp4, energy)
+    ws = dict(Delta00=np.ones_like(energy), Delta02=pz4 ** 2 * np.ones_like(energy),
+              Delta20=energy ** 2, Delta11=energy * pz4)
+    goals, rows, specs = [], [], []
     for name in WEIGHTS:
         y = float(getattr(D, name).coefficients[0, 0])
         q = Fraction(y)
-        tol = abs(q) * Fraction(1, 10 ** 9) + Fraction(1, 10 ** 12)
-        goals.append("Goal Rabs (gd_moment_%s s1 %d %s f - %s) <= %s.\nProof. ev. Qed." % (
-            name, N, pyrx.rlit(msq), pyrx.rlit(q), pyrx.rlit(tol)))
+        scale = float(np.sum(np.abs(meas * ws[name] * f[None, None, :, :])[0, 0]))
+        tol = Fraction(scale) * Fraction(1, 10 ** 9) + Fraction(1, 10 ** 12)
+        term = "gd_moment_%s s1 %d %s f - %s" % (name, N, pyrx.rlit(msq), pyrx.rlit(q))
+        goals.append("Goal Rabs (%s) <= %s.\nProof. ev. Qed." % (term, pyrx.rlit(tol)))
         rows.append((name, y))
-    text = EVAL_HDR % ("; ".join(terms), pyrx.rlit(L0), pyrx.rlit(T0),
-                       *[pyrx.rlit(Fraction(x)) for x in coeffs],
-                       *([pyrx.rlit(Tcur)] * 5)) + "\n".join(goals) + "\n"
-    path = ctx.write("Cases/Eval_%d.v" % idx, text)
+        specs.append((name, term, pyrx.rlit(tol)))
+    hdr = EVAL_HDR % ("; ".join(terms), pyrx.rlit(L0), pyrx.rlit(T0),
+                      *[pyrx.rlit(Fraction(x)) for x in coeffs],
+                      *([pyrx.rlit(Tcur)] * 5))
+    path = ctx.write("Cases/Eval_%d.v" % idx, hdr + "\n".join(goals) + "\n")
     return path, dict(N=N, ops=[list(map(str, o)) for o in ops],
-                      coeffs=[str(c) for c in coeffs], msq=str(msq), values=rows)
+                      coeffs=[str(c) for c in coeffs], msq=str(msq), values=rows,
+                      hdr=hdr, specs=specs)
+
+
+def classify_failed_eval(ctx, idx, info):
+    """A failed `interval` run proves nothing.  Each goal of the file is retried alone at
+    200 bits, together with its REFUTATION (tol < |model - impl|).  Only a certified
+    refutation is a broken correspondence; if neither side can be certified the case is
+    recorded as inconclusive and never becomes a violation."""
+    jobs = []
+    for name, term, tol in info["specs"]:
+        for kind, goal in (("claim", "Rabs (%s) <= %s" % (term, tol)),
+                           ("refute", "%s < Rabs (%s)" % (tol, term))):
+            pth = ctx.write("Cases/Retry_%d_%s_%s.v" % (idx, name, kind),
+                            info["hdr"] + "Goal %s.\nProof. ev_hi. Qed.\n" % goal)
+            jobs.append((name, kind, subprocess.Popen(
+                ["timeout", "900", "coqc"] + ctx.coq_args() + [pth], cwd=ctx.bdir,
+                stdout=subprocess.PIPE, stderr=subprocess.PIPE, text=True)))
+    res = {}
+    for name, kind, pr in jobs:
+        pr.communicate()
+        res[(name, kind)] = pr.returncode == 0
+    for name, _, _ in info["specs"]:
+        if res[(name, "claim")]:
+            ctx.count("certified_eval_retry_ok")
+        elif res[(name, "refute")]:
+            ctx.broken.append("correspondence: certified MISMATCH model vs getDeltas for %s "
+                              "(Eval_%d)" % (name, idx))
+            ctx.log("certified mismatch", name, json.dumps(
+                {k: v for k, v in info.items() if k not in ("hdr", "specs")}))
+        else:
+            ctx.count("certified_eval_inconclusive")
+            ctx.log("certified evaluation inconclusive (not a violation)", name,
+                    json.dumps({k: v for k, v in info.items() if k not in ("hdr", "specs")}))
 
 
 def basis_trace_cases(ctx, facts):
@@ -611,7 +652,8 @@ def run(ctx):
                 coeffs[0] += 3
                 path, info = eval_case(ctx, idx, N, ops, coeffs, fv)
                 if idx == 0:
-                    ctx.sample(dict(certified_eval=info))
+                    ctx.sample(dict(certified_eval={k: v for k, v in info.items()
+                                                    if k not in ("hdr", "specs")}))
                 procs.append((idx, info, subprocess.Popen(
                     ["timeout", "900", "coqc"] + ctx.coq_args() + [path], cwd=ctx.bdir,
                     stdout=subprocess.PIPE, stderr=subprocess.PIPE, text=True)))
@@ -643,10 +685,16 @@ def run(ctx):
     for idx, info, pr in procs:
         out, err = pr.communicate()
         for _ in info["values"]:
-            ctx.count("certified_eval", dict(info, k=_[0]))
+            ctx.count("certified_eval", dict(N=info["N"], ops=info["ops"],
+                                             coeffs=info["coeffs"], k=_[0]))
         if pr.returncode != 0:
-            ctx.broken.append("correspondence: certified evaluation Eval_%d" % idx)
-            ctx.log("certified evaluation failed", vlib.tail(err, 6), json.dumps(info))
+            ctx.log("certified evaluation Eval_%d did not go through at 80 bits; retrying "
+                    "goal by goal" % idx, vlib.tail(err, 3))
+            try:
+                classify_failed_eval(ctx, idx, info)
+            except Exception as ex:
+                ctx.log("retry raised", traceback.format_exc())
+                ctx.broken.append("correspondence: retry of Eval_%d raised %r" % (idx, ex))
     ctx.cov["rule"] = (
         "direct: every odd N in the tier's list x basisM x basisN, with mass profile "
         "(constant / z-dependent / light), number of species, grid class, scale history "
